@@ -16,6 +16,7 @@ CASE_TYPE = "C11.case"
 MODEL_OK = "C11.model_ok"
 SPEC_OK = "C11.spec_ok"
 SHARD = 600
+RUN_ALARM = False     # every call already runs under this module's own interval timer (_guarded)
 
 WIDE = "Ｅ"      # FULLWIDTH LATIN CAPITAL LETTER E
 COMB = "̀"      # COMBINING GRAVE ACCENT
